@@ -384,7 +384,7 @@ func fnFlushAll(ctx *cmdContext, args map[string]any) (output respValue, err err
 		if ds == ctx.dsc.ds {
 			// reuse this command's lock id, it may be running inside EXEC
 			ctx.dsc.flush()
-		} else if owner := ctx.cs.execDsc; owner != nil && ds == owner.ds {
+		} else if owner := ctx.cs.execOwned[ds]; owner != nil {
 			// running inside an EXEC that was started in another database (a SELECT
 			// was queued before this command): that database is locked by the EXEC itself
 			owner.flush()
